@@ -257,7 +257,7 @@ func parseRequestBody(c *Client, r *Request) (err error) {
 	}
 
 	// handle form data
-	if len(c.FormData) > 0 {
+	if len(c.FormData) > 0 && r.RetryAttempt == 0 { // once: r.FormData is carried over to the retries
 		r.SetFormDataFromValues(c.FormData)
 	}
 
